@@ -7,6 +7,7 @@ CONSTANTS
   MaxFaults = 2
   AllowCrash = FALSE
   AllowEmptyLeftover = FALSE
+  AllowTornRmdir = FALSE
   CombinerClearsQueueOnFailedFlush = TRUE
   Hash <- HashId
   ReaderReportsHunks = TRUE
